@@ -38,14 +38,35 @@ Theorem C14_example :
           mkop "f*" [] ].
 Proof. split; [exact ex_ops_dom|exact ex_ops_result]. Qed.
 
-(* (2) The inline-image clause, in the form "an inline image as decode delivers it is encoded to
-   bytes that decode to the same image".  PARTIAL with respect to the second sentence of the
-   property: the hypothesis describes decode's images ([image_dom]) instead of quantifying over
-   every content that decodes; what is missing is the soundness direction of the parser model
-   (every value the model parser returns satisfies obj_wf) and a model of f32 re-printing for reals
-   spelled non-canonically in the source (DESIGN 3, assumption c).  The correspondence run
-   evaluates the full clause (decode, encode, decode) on the implementation for every case. *)
-Theorem C14_inline_image_rt_partial :
+(* (2) The inline-image clause (second sentence of the property).
+   (a) Everything the inline-image parser returns has the image-specific part of the domain:
+   operator BI, one stream operand with unique keys, a dictionary that implies exactly the data
+   length, data not beginning with content white space, Length already set. *)
+Theorem C14_inline_image_decoded :
+  forall fuel s ops op r,
+    inline_image fuel s = POk (ops, op) r ->
+    op = bs "BI" /\
+    exists d c, ops = [OStream d c] /\ NoDup (map fst d) /\
+                img_len d = Some (N.of_nat (length c)) /\ cs_start c = true /\
+                dict_get d K_Length = Some (OInt (Z.of_nat (length c))).
+Proof. exact inline_image_sound. Qed.
+
+(* (b) Hence a decoded inline image is encoded to bytes that decode to exactly the same operation.
+   PARTIAL with respect to the property text: the three hypotheses on the dictionary VALUES
+   (well-formed, in normal form, nesting within the limit) are what the object parser returns but
+   are assumed here, not derived: missing is the soundness direction of the parser model for
+   values and a model of f32 re-printing for reals spelled non-canonically in the source (the model
+   keeps "+1.50" as text, Rust re-prints "1.5"; DESIGN 3, assumption c).  The correspondence run
+   evaluates the literal clause (decode, encode, decode) on the implementation for every dec case. *)
+Theorem C14_inline_image_reencode_partial :
+  forall fuel s d c r,
+    inline_image fuel s = POk ([OStream d c], bs "BI") r ->
+    Forall (fun kv => obj_wf (snd kv)) d -> norm_dict d = d -> nest (OStream d c) <= MAX_DEPTH ->
+    decode_content (encode_content [mkop "BI" [OStream d c]]) = DecOk [mkop "BI" [OStream d c]].
+Proof. exact decoded_image_reencodes. Qed.
+
+(* (c) and for any inline image of the class, within a sequence or alone (instance of C14_rt) *)
+Theorem C14_inline_image_rt :
   forall op, image_dom op -> alphabet_op (op_operator op) = true -> known_class op = false ->
     decode_content (encode_content [op]) = DecOk [norm_op op].
 Proof.
@@ -159,7 +180,9 @@ Proof. exact image_space_data_refuted. Qed.
 
 Print Assumptions C14_rt.
 Print Assumptions C14_example.
-Print Assumptions C14_inline_image_rt_partial.
+Print Assumptions C14_inline_image_decoded.
+Print Assumptions C14_inline_image_reencode_partial.
+Print Assumptions C14_inline_image_rt.
 Print Assumptions C14_object_rt.
 Print Assumptions C14_separator_rule.
 Print Assumptions C14_separator_suffices.
